@@ -348,6 +348,17 @@ func c16Sim(r *simcore.Run) {
 	if claimsTpl != "" {
 		conf["claims"] = claimsTpl
 	}
+	// where the token goes: the Authorization header with the Bearer scheme (default), a header of its own without any
+	// scheme ("no scheme will be prepended": the value is the bare token), or a header with another scheme
+	hdrName, hdrScheme := "Authorization", "Bearer"
+	switch s.Draw(4, "token-header") {
+	case 2:
+		hdrName, hdrScheme = "X-Token", ""
+		conf["header"] = map[string]any{"name": hdrName}
+	case 3:
+		hdrName, hdrScheme = "X-Token", "Tok"
+		conf["header"] = map[string]any{"name": hdrName, "scheme": hdrScheme}
+	}
 	sw := &simWatcher{listeners: map[string][]watcher.ChangeListener{}}
 	reg := keyholder.VerifNewRegistry()
 	fin, err := CreatePrototype(&c16CreationCtx{w: sw, khr: reg, co: certificate.NewObserver()}, "jwtfin", FinalizerJwt, conf)
@@ -541,7 +552,13 @@ func c16Sim(r *simcore.Run) {
 				op.err = f.Execute(hc, &subject.Subject{ID: subj, Attributes: map[string]any{}})
 				op.ret = sch.Stamp()
 				op.t1 = time.Now().Unix()
-				op.token = strings.TrimPrefix(hc.headers.Get("Authorization"), "Bearer ")
+				if t == 1 && jf2 != nil {
+					op.token = strings.TrimPrefix(hc.headers.Get("Authorization"), "Bearer ")
+				} else if hdrScheme != "" {
+					op.token = strings.TrimPrefix(hc.headers.Get(hdrName), hdrScheme+" ")
+				} else {
+					op.token = hc.headers.Get(hdrName) // the bare token
+				}
 				c16Record(&ops[t], op)
 			}
 		})
